@@ -944,6 +944,27 @@ def _focus_momentum(c, rng):
     c["graft"]["start"] = rng.choice([0, 1])
 
 
+def _focus_split_axes(c, rng):
+    """two blocked (large) axes SEPARATED by small axes that the merge limit cannot merge away, >= 2 blocks along each large
+    axis, ragged (zero-padded) ones included: the two-large-axes branch of _blockify / _deblockify with a non-trivial middle
+    segment (reshape, transpose, reshape with the right blocks axis moved across the small axes)"""
+    pick = rng.choice([
+        # (tree, merge_dims, block_size): merged shape == original shape in every case
+        ({"w": [7, 3, 6], "v": [8, 3, 2, 8]}, 5, 4),          # large-small-large (padded 8,3,8) and large-small-small-large
+        ({"w": [8, 3, 8], "v": [3, 8, 2, 7]}, 5, 4),          # exact multiples; small-large-small-large (padded 3,8,2,8)
+        ({"w": [5, 2, 9], "v": [6, 2, 2, 7]}, 3, 3),          # ragged: padded (6,2,9) 2x3 blocks; (6,2,2,9) 2x3 blocks
+        ({"w": [6, 2, 6], "v": [2, 6, 2, 5], "b": [4]}, 3, 3),  # padded (2,6,2,6)
+        ({"w": [9, 2, 5], "v": [7, 3, 3, 6]}, 8, 4),          # padded (12,2,8) 3x2 blocks; (8,3,3,8)
+    ])
+    c["shapes"], c["merge"], c["block"] = dict(pick[0]), pick[1], pick[2]
+    c["graft"]["dim_gt"] = 4096
+    c["graft"]["type"] = rng.choice(["NONE", "NONE", "SGD", "RMSPROP"])
+    c["graft"]["start"] = rng.choice([0, 0, 1])
+    c["grad"]["kind"] = rng.choice(["randn", "randn", "ints"])
+    c["grad"]["zero"] = []
+    c["T"] = 4
+
+
 def gen_tasks(tier, seed):
     rng = random.Random(seed * 7919 + 15)
     scale = 1 if tier == "quick" else 8
@@ -970,6 +991,7 @@ def gen_tasks(tier, seed):
     add_full("shampoo", 8 * scale, _focus_blockscale, lin_p=0.0)
     add_full("shampoo", 12 * scale, _focus_merged)
     add_full("shampoo", 12 * scale, _focus_momentum, lin_p=0.6)
+    add_full("shampoo", 6 * scale, _focus_split_axes, lin_p=0.0)
     add_full("sketchy", 30 * scale)
     add_full("sketchy", 8 * scale, _focus_momentum, lin_p=0.6)
     for _ in range(10 * scale):
@@ -1191,6 +1213,10 @@ def execute(ctx, tasks):
                     ctx.dist("leaves.zero_padded")
                 if L["merged"] != [d for d in c["shapes"][name]]:
                     ctx.dist("leaves.merged_shape_differs_from_original")
+                if c["so"] == "shampoo" and not L["masked"]:
+                    big = [i for i, d in enumerate(L["merged"]) if d >= c["block"]]
+                    if len(big) == 2 and big[1] - big[0] > 1:
+                        ctx.dist("leaves.two_blocked_axes_separated_by_small_axes")
                 for t in L["nontrivial"]:
                     if t >= c["graft"]["start"] or c["graft"]["type"] == "NONE":
                         ctx.nontrivial((c["so"], c["graft"]["type"], str(c["shapes"]), c["merge"], c["block"], c["grad"]["seed"], name, t))
